@@ -199,6 +199,8 @@ pub struct State {
     pub log: Vec<Request>,
     session_counter: u32,
     seed: u64,
+    /// Intact renderings and their hashes: (is_delta, version index) -> (body, sha256).
+    cache: std::cell::RefCell<HashMap<(bool, usize), Arc<(Vec<u8>, [u8; 32])>>>,
 }
 
 const MTIME_BASE: i64 = 1_700_000_000;
@@ -208,6 +210,7 @@ impl State {
         State {
             host, versions: Vec::new(), cur: None, files: BTreeMap::new(), use_etag: true, use_last_modified: true,
             retain: 100, faults: FaultPlan::default(), log: Vec::new(), session_counter: 0, seed,
+            cache: Default::default(),
         }
     }
 
@@ -332,29 +335,53 @@ impl State {
         out.into_bytes()
     }
 
-    /// The bytes of a snapshot/delta file as served under the current fault plan
-    /// and the hash that the notification file gives for it.
-    fn snapshot_served(&self, idx: usize) -> (Vec<u8>, [u8; 32]) {
-        // the listed hash is that of the intact file: every faulty rendering
-        // fails while it is processed, before the hash is compared
-        let fault = &self.faults.snapshot;
-        let mut body = self.render_snapshot(idx, fault);
-        let mut hash = sha256(&self.render_snapshot(idx, &FileFault::None));
-        if *fault == FileFault::ContentAltered { body.extend_from_slice(b"<!-- altered -->\n"); }
-        if self.faults.snapshot_hash_wrong { hash[0] ^= 0xff; }
-        (body, hash)
+    fn intact(&self, is_delta: bool, idx: usize) -> Arc<(Vec<u8>, [u8; 32])> {
+        if let Some(hit) = self.cache.borrow().get(&(is_delta, idx)) { return hit.clone() }
+        let body = if is_delta { self.render_delta(idx, &FileFault::None) } else { self.render_snapshot(idx, &FileFault::None) };
+        let hash = sha256(&body);
+        let res = Arc::new((body, hash));
+        self.cache.borrow_mut().insert((is_delta, idx), res.clone());
+        res
     }
 
-    fn delta_served(&self, idx: usize) -> (Vec<u8>, [u8; 32]) {
-        let serial = self.versions[idx].serial;
-        let none = FileFault::None;
-        let fault = match &self.faults.delta { Some((s, f)) if *s == serial => f, _ => &none };
-        let mut body = self.render_delta(idx, fault);
-        let mut hash = sha256(&self.render_delta(idx, &FileFault::None));
-        if *fault == FileFault::ContentAltered { body.extend_from_slice(b"<!-- altered -->\n"); }
-        if self.faults.mutate_hash == Some(serial) { hash[31] ^= 0x01; }
-        (body, hash)
+    /// The hash the notification file gives for a snapshot / delta file.  It is
+    /// that of the intact file: every faulty rendering fails while it is
+    /// processed, before the hash is compared.
+    fn snapshot_listed_hash(&self, idx: usize) -> [u8; 32] {
+        let mut hash = self.intact(false, idx).1;
+        if self.faults.snapshot_hash_wrong { hash[0] ^= 0xff; }
+        hash
     }
+
+    fn delta_listed_hash(&self, idx: usize) -> [u8; 32] {
+        let mut hash = self.intact(true, idx).1;
+        if self.faults.mutate_hash == Some(self.versions[idx].serial) { hash[31] ^= 0x01; }
+        hash
+    }
+
+    /// The bytes of a snapshot / delta file as served under the current fault plan.
+    fn snapshot_body(&self, idx: usize) -> Vec<u8> {
+        match &self.faults.snapshot {
+            FileFault::None | FileFault::Http(_) => self.intact(false, idx).0.clone(),
+            FileFault::ContentAltered => { let mut b = self.intact(false, idx).0.clone(); b.extend_from_slice(b"<!-- altered -->\n"); b }
+            fault => self.render_snapshot(idx, fault),
+        }
+    }
+
+    fn delta_body(&self, idx: usize) -> Vec<u8> {
+        let serial = self.versions[idx].serial;
+        match &self.faults.delta {
+            Some((s, fault)) if *s == serial => match fault {
+                FileFault::None | FileFault::Http(_) => self.intact(true, idx).0.clone(),
+                FileFault::ContentAltered => { let mut b = self.intact(true, idx).0.clone(); b.extend_from_slice(b"<!-- altered -->\n"); b }
+                fault => self.render_delta(idx, fault),
+            },
+            _ => self.intact(true, idx).0.clone(),
+        }
+    }
+
+    fn snapshot_served(&self, idx: usize) -> (Vec<u8>, [u8; 32]) { (self.snapshot_body(idx), self.snapshot_listed_hash(idx)) }
+    fn delta_served(&self, idx: usize) -> (Vec<u8>, [u8; 32]) { (self.delta_body(idx), self.delta_listed_hash(idx)) }
 
     pub fn render_notification(&self) -> Option<Vec<u8>> {
         let cur = self.cur?;
@@ -364,7 +391,7 @@ impl State {
                 v.session, v.serial).into_bytes())
         }
         let mut out = format!("<notification xmlns=\"{NS}\" version=\"1\" session_id=\"{}\" serial=\"{}\">\n", v.session, v.serial);
-        out.push_str(&format!("  <snapshot uri=\"{}\" hash=\"{}\"/>\n", self.snapshot_uri(cur), hex(&self.snapshot_served(cur).1)));
+        out.push_str(&format!("  <snapshot uri=\"{}\" hash=\"{}\"/>\n", self.snapshot_uri(cur), hex(&self.snapshot_listed_hash(cur))));
         let mut chain = self.delta_chain(cur);
         match &self.faults.list {
             ListFault::None => {}
@@ -379,7 +406,7 @@ impl State {
         // newest first, as real servers do; the client sorts
         for i in chain.iter().rev() {
             out.push_str(&format!("  <delta serial=\"{}\" uri=\"{}\" hash=\"{}\"/>\n",
-                self.versions[*i].serial, self.delta_uri(*i), hex(&self.delta_served(*i).1)));
+                self.versions[*i].serial, self.delta_uri(*i), hex(&self.delta_listed_hash(*i))));
         }
         out.push_str("</notification>\n");
         Some(out.into_bytes())
@@ -434,14 +461,14 @@ impl State {
                 let i = idx.unwrap();
                 match self.faults.snapshot {
                     FileFault::Http(st) => HttpReply { status: st, headers: vec![], body: b"error".to_vec() },
-                    _ => HttpReply { status: 200, headers: xml, body: self.snapshot_served(i).0 },
+                    _ => HttpReply { status: 200, headers: xml, body: self.snapshot_body(i) },
                 }
             }
             ReqKind::Delta(serial) => {
                 let i = idx.unwrap();
                 match &self.faults.delta {
                     Some((s, FileFault::Http(st))) if *s == serial => HttpReply { status: *st, headers: vec![], body: b"error".to_vec() },
-                    _ => HttpReply { status: 200, headers: xml, body: self.delta_served(i).0 },
+                    _ => HttpReply { status: 200, headers: xml, body: self.delta_body(i) },
                 }
             }
             ReqKind::File => HttpReply { status: 200, headers: vec![], body: self.files[&path].to_vec() },
@@ -526,7 +553,7 @@ impl RrdpServer {
     /// Forgets everything (versions, files, faults, log); validators on.
     pub fn reset(&self) {
         self.with(|s| {
-            s.versions.clear(); s.cur = None; s.files.clear(); s.faults = FaultPlan::default(); s.log.clear();
+            s.versions.clear(); s.cur = None; s.files.clear(); s.cache.borrow_mut().clear(); s.faults = FaultPlan::default(); s.log.clear();
             s.use_etag = true; s.use_last_modified = true; s.retain = 100;
         })
     }
